@@ -258,6 +258,95 @@ def _shared_state_check(pid, program, chk):
     chk.facts["O0.3 classes of the anchor files examined for shared mutable class state"] = n
 
 
+DEFAULT_CONTROL = """
+class Box:
+    def __init__(self, items=[], names=(), queue: dict = {}, helper=Helper(), label=None):
+        self.items = items
+        self.names = names
+        self.label = label
+        self.helper = helper
+        queue.setdefault('k', 1)
+    def ok(self, extra=None, found=[]):
+        extra = extra or []
+        extra.append(1)
+        return len(found)
+"""
+
+
+def _shared_default_sites(program, module, fn_node, classes_mutable=True):
+    """(parameter, node, what) for every parameter of fn_node whose default is ONE object made when the function is
+    defined -- a mutable display / container call, or an instance of a package class -- and that the function keeps
+    (stores on self or into a container) or mutates: every call that omits the argument shares that one object"""
+    from sa import util as _util
+
+    a = fn_node.args
+    pos = a.posonlyargs + a.args
+    pairs = list(zip(pos[len(pos) - len(a.defaults):], a.defaults)) + [(x, d) for x, d in zip(a.kwonlyargs, a.kw_defaults) if d is not None]
+    out = []
+    for arg, d in pairs:
+        kind = None
+        if isinstance(d, (_ast.Dict, _ast.List, _ast.Set, _ast.ListComp, _ast.SetComp, _ast.DictComp)):
+            kind = "a mutable %s display" % type(d).__name__.lower()
+        elif isinstance(d, _ast.Call):
+            q = program.resolve(module, d.func) or ""
+            if q.split(".")[-1] in _MUTABLE_CTORS or q in ("ext:weakref.WeakSet", "ext:weakref.WeakValueDictionary", "ext:weakref.WeakKeyDictionary"):
+                kind = "one %s()" % q.split(".")[-1]
+            elif q in program.classes and not any(b.startswith("ext:builtins.") and b.split(".")[-1] in ("Exception", "BaseException") or "Error" in b for b in program.classes[q].mro):
+                kind = "one instance of %s" % q.split(":")[-1]
+        if kind is None:
+            continue
+        name = arg.arg
+        if any(isinstance(n, _ast.Name) and n.id == name and isinstance(n.ctx, (_ast.Store, _ast.Del)) for n in _ast.walk(fn_node)):
+            continue  # re-bound somewhere: not followed
+        for n in _ast.walk(fn_node):
+            if isinstance(n, (_ast.Assign, _ast.AnnAssign)) and isinstance(getattr(n, "value", None), _ast.Name) and n.value.id == name:
+                tgs = n.targets if isinstance(n, _ast.Assign) else [n.target]
+                if any(isinstance(t, (_ast.Attribute, _ast.Subscript)) for t in tgs):
+                    out.append((name, n, "%s is kept (%s) -- the default is %s created when the function is defined" % (name, _util.unparse(tgs[0]), kind)))
+            elif isinstance(n, _ast.Call) and isinstance(n.func, _ast.Attribute) and n.func.attr in _MUTATORS and isinstance(n.func.value, _ast.Name) and n.func.value.id == name:
+                out.append((name, n, "%s.%s(...) mutates the default, which is %s created when the function is defined" % (name, n.func.attr, kind)))
+            elif isinstance(n, (_ast.Assign, _ast.AugAssign, _ast.Delete)):
+                for t in n.targets if isinstance(n, (_ast.Assign, _ast.Delete)) else [n.target]:
+                    if isinstance(t, _ast.Subscript) and isinstance(t.value, _ast.Name) and t.value.id == name:
+                        out.append((name, n, "%s[...] is written: the default is %s created when the function is defined" % (name, kind)))
+    return out
+
+
+def _shared_default_check(pid, program, chk):
+    """O0.4 (every property): no function keeps or mutates a default argument that is one mutable object / one instance
+    of a package class made at definition time -- all calls (and all instances) that omit the argument would share it"""
+    from sa import query
+
+    m = query.adhoc_module(program, DEFAULT_CONTROL + "\nclass Helper:\n    pass\n")
+    program.classes.setdefault("<control>:Helper", None)
+    got = []
+    try:
+        import types
+
+        fake = types.SimpleNamespace(mro=["<control>:Helper"])
+        program.classes["<control>:Helper"] = fake
+        for fn in m.tree.body[0].body:
+            got += [(p, type(n).__name__) for p, n, _w in _shared_default_sites(program, m, fn)]
+    finally:
+        program.classes.pop("<control>:Helper", None)
+    if sorted(got) != [("helper", "Assign"), ("items", "Assign"), ("queue", "Call")]:
+        chk.undecided("O0.4", "<positive control>", "the shared-default rule does not behave as expected on its control example: %s" % sorted(got))
+        return
+    files = set(_anchor_files(pid)) if chk.tier != "thorough" else {".py"}
+    n = 0
+    for fi in list(program.functions.values()):
+        rel = getattr(fi.module, "relpath", "") or ""
+        if not any(rel.endswith(f) for f in files):
+            continue
+        n += 1
+        for pname, node, what in _shared_default_sites(program, fi.module, fi.node):
+            chk.bad("O0.4", fi.qual, "%s: every call that omits `%s` -- and with it every instance built that way -- shares that object" % (what, pname), node=node, stmt="shared-default %s" % pname)
+    chk.count(n)
+    if not any(ob.rule == "O0.4" for ob in chk.obs):
+        chk.ok("O0.4", "<anchor files>", "%d functions: no default argument that is one mutable object / package instance is kept or mutated" % n)
+    chk.facts["O0.4 functions of the anchor files examined for shared default arguments"] = n
+
+
 def _exercise_anchor_files(pid, program, chk):
     """interpret every function of the property's anchor files once, without hooks, only to collect O0.1 reads
     (thorough tier: every function of the package)"""
@@ -328,7 +417,42 @@ def _normalise_control():
     for body in ("return x", "continue", "yield x", "xs.append(x)", "x = 1"):
         if run(body)[0]:
             return False
+    # records: one private NamedTuple attribute is read as the attributes it replaced -- only when every use is known
+    tree = _ast.parse(_RECORD_CONTROL)
+    done = normalise_module(tree)
+    out = _ast.unparse(tree)
+    want = ["self._token = None", "self._chan = None", "self._token = t", "return (self._token, self._chan)", "return self._chan"]
+    if done != ["record R._acc"] or not all(w in out for w in want) or "def _token" in out:
+        return False
+    tree = _ast.parse(_RECORD_CONTROL + "    def leak(self):\n        return self._acc\n")
+    if normalise_module(tree):
+        return False  # the record escapes as a whole: left alone
     return True
+
+
+_RECORD_CONTROL = """
+from typing import NamedTuple
+class _Acc(NamedTuple):
+    token: object = None
+    chan: object = None
+class R:
+    def __init__(self):
+        self._acc = _Acc()
+    @property
+    def _token(self):
+        return self._acc.token
+    @property
+    def _chan(self):
+        return self._acc.chan
+    def set(self, t):
+        self._acc = self._acc._replace(token=t)
+    def both(self):
+        a, b = self._acc
+        return a, b
+    def chan(self):
+        acc = self._acc
+        return acc.chan
+"""
 
 
 def run_property(pid, tier, seed, repo, replay=None):
@@ -367,6 +491,7 @@ def run_property(pid, tier, seed, repo, replay=None):
         _exercise_anchor_files(pid, program, chk)
         _attribute_check(pid, program, chk)
         _shared_state_check(pid, program, chk)
+        _shared_default_check(pid, program, chk)
         # O0.1 (every property): a function the rules interpreted reads a local that no earlier statement on that
         # path has bound -- the anchored code raises UnboundLocalError / NameError instead of doing what the property says
         if not interp.UNBOUND_READS:
